@@ -28,6 +28,8 @@ mod replication_fetcher;
 pub mod target_arch;
 mod transactions;
 mod transport;
+#[cfg(feature = "verif-hooks")]
+pub mod verif_hooks;
 
 use cmd::LocalSwarmCmd;
 use xor_name::XorName;
